@@ -159,7 +159,7 @@ func C15(p *core.Program, r *core.Report) {
 		okAdmin := false
 		for _, c := range conds {
 			if call, ok := core.CondIsCall(c, bp7+".BundleControlFlags.Has"); ok && !c.True {
-				if v, ok := core.ConstInt(core.CallArgs(call)[0]); ok && v == adminFlag && pathEndsWith(core.CallRecv(call), "PrimaryBlock", "BundleControlFlags") {
+				if v, ok := core.ConstInt(core.Arg(call, 0)); ok && v == adminFlag && pathEndsWith(core.CallRecv(call), "PrimaryBlock", "BundleControlFlags") {
 					okAdmin = true
 				}
 			}
@@ -168,7 +168,7 @@ func C15(p *core.Program, r *core.Report) {
 		okSelf := false
 		for _, c := range conds {
 			if call, ok := core.CondIsCall(c, routingPkg+".Core.HasEndpoint"); ok && !c.True {
-				if pathEndsWith(core.CallArgs(call)[0], "PrimaryBlock", "ReportTo") {
+				if pathEndsWith(core.Arg(call, 0), "PrimaryBlock", "ReportTo") {
 					okSelf = true
 				}
 			}
@@ -183,14 +183,14 @@ func C15(p *core.Program, r *core.Report) {
 		}
 		chain := builderChain(build)
 		if fl := chain["BundleCtrlFlags"]; fl != nil {
-			v, ok := core.ConstInt(core.CallArgs(fl)[0])
+			v, ok := core.ConstInt(core.Arg(fl, 0))
 			mask := reqRecv | reqFwd | reqDlv | reqDel
 			r.Check(ok && v&adminFlag != 0 && v&mask == 0, "report-bundle/SendStatusReport/flags", "the report is an administrative record without report-request flags (constant flags: admin bit set, no request bit)", p.Pos(fl.Pos()), fmt.Sprintf("flags=%#x", v), fmt.Sprintf("flags constant=%v value=%#x", ok, v))
 		} else {
 			r.Fail("report-bundle/SendStatusReport/flags", "the report is an administrative record without report-request flags", pos, "no BundleCtrlFlags call in the builder chain")
 		}
 		if d := chain["Destination"]; d != nil {
-			r.Check(pathEndsWith(core.CallArgs(d)[0], "PrimaryBlock", "ReportTo"), "report-bundle/SendStatusReport/destination", "the report is addressed to the reported bundle's report-to endpoint", p.Pos(d.Pos()), "", "Destination argument is not <bundle>.PrimaryBlock.ReportTo")
+			r.Check(pathEndsWith(core.Arg(d, 0), "PrimaryBlock", "ReportTo"), "report-bundle/SendStatusReport/destination", "the report is addressed to the reported bundle's report-to endpoint", p.Pos(d.Pos()), "", "Destination argument is not <bundle>.PrimaryBlock.ReportTo")
 		} else {
 			r.Fail("report-bundle/SendStatusReport/destination", "the report is addressed to the reported bundle's report-to endpoint", pos, "no Destination call in the builder chain")
 		}
@@ -214,7 +214,7 @@ func C15(p *core.Program, r *core.Report) {
 			}
 			okArgs = okArgs && okSame
 			canon := chain["Canonical"]
-			okArgs = okArgs && canon != nil && core.DependsOn(core.CallArgs(canon)[0], func(v ssa.Value) bool { return v == nsr[0].(ssa.Value) })
+			okArgs = okArgs && canon != nil && core.DependsOn(core.Arg(canon, 0), func(v ssa.Value) bool { return v == nsr[0].(ssa.Value) })
 		}
 		r.Check(okArgs, "report-bundle/SendStatusReport/record", "the record carried is NewStatusReport(the guarded bundle, the caller's status, the caller's reason)", pos, "", "NewStatusReport arguments are not (guarded bundle, status param, reason param) or the record does not reach the builder")
 	}
@@ -261,7 +261,7 @@ func C15(p *core.Program, r *core.Report) {
 		}
 		if f == "IsFragment" {
 			if c, ok := st.Val.(*ssa.Call); ok && core.NameIs(core.CalleeName(c), bp7+".BundleControlFlags.Has") {
-				if v, ok := core.ConstInt(core.CallArgs(c)[0]); ok && v == fragFlag && pathEndsWith(core.CallRecv(c), "PrimaryBlock", "BundleControlFlags") {
+				if v, ok := core.ConstInt(core.Arg(c, 0)); ok && v == fragFlag && pathEndsWith(core.CallRecv(c), "PrimaryBlock", "BundleControlFlags") {
 					isFrag = true
 				}
 			}
@@ -291,7 +291,7 @@ func C15(p *core.Program, r *core.Report) {
 		r.Check(okPos, "report-item/NewStatusReport/asserted-position", "only the item at the reported status position is asserted", p.Pos(ts.Pos()), "", "the time item is not guarded by position == statusItem")
 	}
 	for _, bs := range core.CallsTo(nsr, bp7+".NewBundleStatusItem") {
-		v, ok := core.ConstInt(boolToInt(core.CallArgs(bs)[0]))
+		v, ok := core.ConstInt(boolToInt(core.Arg(bs, 0)))
 		if !ok {
 			r.Unknown("report-item/NewStatusReport/asserted-constant", "status items are created with constant asserted flags", p.Pos(bs.Pos()), "non-constant")
 			continue
@@ -404,7 +404,7 @@ func sendInvokes(f *ssa.Function) []ssa.Value {
 // buildCallFeeding traces the bundle passed to SendBundle back to the
 // BundleBuilder.Build call it came from.
 func buildCallFeeding(sb ssa.CallInstruction) *ssa.Call {
-	arg := core.CallArgs(sb)[0]
+	arg := core.Arg(sb, 0)
 	var found *ssa.Call
 	core.DependsOn(arg, func(v ssa.Value) bool {
 		if c, ok := v.(*ssa.Call); ok && core.NameIs(core.CalleeName(c), bp7+".BundleBuilder.Build") {
